@@ -18,17 +18,19 @@ theorem readWords_safe (n : Nat) (c : Cursor) (hi : c.Inv) :
     · right; simp only [e1, bind, Out.bind]
 
 theorem parseExt_safe (on : Bool) (c : Cursor) (hi : c.Inv) :
-    (∃ p l e c', Rtp.parseExt on c = .ok (p, l, e, c') ∧ c'.Inv ∧ (on = true → e.length = l) ∧ (on = false → e = [] ∧ l = 0))
+    (∃ p l e c', Rtp.parseExt on c = .ok (p, l, e, c') ∧ c'.Inv ∧ (on = true → e.length = l) ∧ (on = false → e = [] ∧ l = 0)
+        ∧ l < 65536)
     ∨ Rtp.parseExt on c = .throw .malformedPacket := by
   unfold Rtp.parseExt
   cases on with
-  | false => left; exact ⟨0, 0, [], c, rfl, hi, by simp, by simp⟩
+  | false => left; exact ⟨0, 0, [], c, rfl, hi, by simp, by simp, by omega⟩
   | true =>
     simp only [if_true]
     rcases readBE_safe c 2 hi with ⟨p, c1, e1, i1, _⟩ | ⟨e1, _⟩
     · rcases readBE_safe c1 2 i1 with ⟨l, c2, e2, i2, _⟩ | ⟨e2, _⟩
       · rcases readWords_safe l c2 i2 with ⟨ws, c3, e3, i3, hl⟩ | e3
-        · left; exact ⟨p, l, ws, c3, by simp only [e1, e2, e3, bind, Out.bind]; rfl, i3, fun _ => hl, by simp⟩
+        · left; exact ⟨p, l, ws, c3, by simp only [e1, e2, e3, bind, Out.bind]; rfl, i3, fun _ => hl, by simp,
+            by have := readBE_lt c1 2 l c2 i1 e2; omega⟩
         · right; simp only [e1, e2, e3, bind, Out.bind]
       · right; simp only [e1, e2, bind, Out.bind]
     · right; simp only [e1, bind, Out.bind]
@@ -166,6 +168,7 @@ structure Rtp.Inv (r : Rtp) : Prop where
   ext : r.extLength = r.extData.length
   padBit : r.paddingBit = 1 ↔ r.padding > 0
   padLt : r.padding < 256
+  extLt : r.extLength < 65536
 
 /-- the extension header + data as written -/
 def Rtp.extBytes (r : Rtp) : Bytes :=
@@ -314,13 +317,13 @@ theorem rtp_parse_inv (b : Bytes) (r : Rtp) (i : Inner) (h : Rtp.parse b = .ok (
   · simp only [e1, bind, Out.bind] at h
     rcases readWords_safe (Rtp.csrcCount ⟨hd, [], 0, 0, [], 0⟩) c1 i1 with ⟨ws, c2, e2, i2, _⟩ | e2
     · simp only [e2] at h
-      rcases parseExt_safe (Rtp.extensionBit ⟨hd, [], 0, 0, [], 0⟩ == 1) c2 i2 with ⟨p, l, e, c3, e3, i3, hon, hoff⟩ | e3
+      rcases parseExt_safe (Rtp.extensionBit ⟨hd, [], 0, 0, [], 0⟩ == 1) c2 i2 with ⟨p, l, e, c3, e3, i3, hon, hoff, hl16⟩ | e3
       · simp only [e3] at h
         rcases parsePadding_safe (Rtp.paddingBit ⟨hd, [], 0, 0, [], 0⟩ == 1) c3 i3 with ⟨pd, e4, pon, poff⟩ | e4
         · simp only [e4] at h
           have := finish_ok _ _ _ _ h
           subst this
-          refine ⟨hl, ?_, ?_, ?_⟩
+          refine ⟨hl, ?_, ?_, ?_, hl16⟩
           · simp only
             cases hx : (Rtp.extensionBit ⟨hd, [], 0, 0, [], 0⟩ == 1) with
             | true => exact (hon hx).symm
